@@ -1,4 +1,4 @@
-import DcmVerif.Props.Source
+import DcmVerif.Props.SourceMeta
 import DcmVerif.Proofs.Key
 import DcmVerif.Props.C13_ext
 /-! Property theorems for C13. Statements only; proofs are by reference to `Proofs/`. -/
